@@ -24,6 +24,7 @@ type slaveConnection struct {
 	dc          dumpConn
 	destruction sync.Once
 	errChan     chan *Error
+	done        chan struct{}
 }
 
 func newSlaveConnection(dumpConn func() (dumpConn, error)) (*slaveConnection, *Error) {
@@ -35,6 +36,7 @@ func newSlaveConnection(dumpConn func() (dumpConn, error)) (*slaveConnection, *E
 	s := &slaveConnection{
 		dc:      m,
 		errChan: make(chan *Error, 1),
+		done:    make(chan struct{}),
 	}
 
 	if err := s.prepareForReplication(); err != nil {
@@ -52,6 +54,9 @@ func (s *slaveConnection) errors() <-chan *Error {
 func (s *slaveConnection) close() {
 	s.destruction.Do(
 		func() {
+			if s.done != nil {
+				close(s.done)
+			}
 			if s.dc != nil {
 				s.dc.Close()
 				_log.Infof("Close closing slave socket to unblock reads")
@@ -97,6 +102,10 @@ func (s *slaveConnection) startDumpFromBinlogPosition(ctx context.Context, serve
 			case <-ctx.Done():
 				_log.Infof("startDumpFromBinlogPosition stop by ctx. reason: %v", ctx.Err())
 				s.errChan <- newError(ctx.Err()).msgf("startDumpFromBinlogPosition cancel")
+				close(s.errChan)
+				return
+			case <-s.done:
+				_log.Infof("startDumpFromBinlogPosition stop by close")
 				close(s.errChan)
 				return
 			}
